@@ -1,13 +1,17 @@
 ENTRY = {
     "level": "proof",
-    "families": [fam("C13", 300, 8000)],
+    "families": [fam("C13", 200, 8000)],
     "gen_items": [],
     "rule": "cases: a table written as a REAL Parquet directory (1..5 files with distinct names, 1..7 row groups of 0..300 rows incl. empty ones, string padding 0/8/64 so cuts fall inside row groups), "
             "node counts 0, 1, 2..8, 12..31; the real splits_of + assign_lpt + shard_context are run for EVERY shard index; per shard: ShardStats, raw provider.scan(Some([k])), parquet_files(), and "
-            "2..4 SQL queries SELECT cols FROM t [WHERE p] with cols in {k,v | k | v,k} and p a single comparison / BETWEEN / IS [NOT] NULL on the non-null key k or the nullable v (top-level predicates only, "
-            "the class the C02 findings do not touch). K = every shard returns exactly the rows the model (C11 enumerate + C12 assign + key ranges of the owned splits) predicts, raw and per query, and the same stats. "
+            "3..6 queries SELECT cols FROM t [WHERE p]: cols = any non-empty sub-sequence AND permutation of the three same-typed integer columns k (key), v (nullable, -3..12), w (= 10^6 + 3k; "
+            "row-group min/max ranges of k, v, w are pairwise disjoint, so statistics read from the wrong column prune wrongly); p a single comparison / BETWEEN / IS [NOT] NULL on k, v or w; half of the queries are "
+            "forced into the shape where the filter column's position in the projected schema differs from its position in the file (SELECT v .. WHERE v <= c, SELECT w,k .. WHERE w ..; tag proj:nonprefix+filter). "
+            "Every query runs as SQL over each shard context and over the unsharded table, and — when cols is increasing in table order — at provider level as scan_with_filter(projection, planner Expr) "
+            "(tag provider:nonprefix+filter). Top-level predicates only, the class the C02 findings do not touch. K = every shard returns exactly the rows the model (C11 enumerate + C12 assign + key ranges of the owned splits) predicts, raw and per query, and the same stats. "
             "O on the implementation's outputs only: one shard per node, parquet_files() is None on every shard, the union of the raw shard scans is the key set 0..n-1 exactly once, and for every query the "
-            "union of the shard answers equals pi(sigma_p(table)) computed in Lean from the table's values under SQL three-valued semantics. "
+            "union of the shard answers equals pi(sigma_p(table)) computed in Lean from the table's values under SQL three-valued semantics; at provider level (the pushed filter is a performance device) "
+            "pi(sigma_p(table)) <= union <= pi(table) as multisets. "
             "non-trivial = >= 2 nodes and >= 2 rows; distinct by sha256 of the canonical case",
     "trusted_base": COMMON_TB + [
         "modelled not verified: read_split/scan_impl (IQE.Engine.Shard) — Arrow/Parquet RowSelection, RowFilter and projection internals are trusted and cross-checked by the runs only",
@@ -18,7 +22,8 @@ ENTRY = {
         "filters are single top-level predicates on integer columns; composite predicates with NULLs are the subject of C02 and excluded here so that its open findings cannot mask a C13 failure",
         "ShardedParquetTable::new is public and accepts arbitrary splits (negative offsets are not range-checked); only split sets built by the coordinator are in the property",
     ],
-    "min_tags": {"shards": 50, "multi-file": 15, "multi-row-group": 15, "sub-row-group": 15, "filter": 40, "filter-nullable": 10, "idle-shards": 3, "nodes0": 2},
+    "min_tags": {"shards": 50, "multi-file": 15, "multi-row-group": 15, "sub-row-group": 15, "filter": 40, "filter-nullable": 10, "idle-shards": 3, "nodes0": 2,
+                 "proj:nonprefix+filter": 60, "provider:nonprefix+filter": 40, "proj:permuted": 30},
     "manifest": {
         "category": "proof",
         "text": "Lean theorems over the executable model of ShardedParquetTable's scan: for every table layout (list of row groups), every contiguous cover of each row group by pieces, every ordering of the splits, "
